@@ -190,13 +190,22 @@ These rules are about the sample list of ONE family as the parser holds it when 
 argument of `_check_histogram`): the list the state machine built from the family's sample lines, in order, minus
 the lines it dropped as repeats of a series at an unchanged timestamp. -/
 
-/-- a bucket sample of family `n`: its bound text, bound, and the group it belongs to (labels without `le`) -/
+/-- the group of a sample inside a histogram family: its labels, without `le` on a bucket line -/
+def histGroupOf (n : Str) (s : OSample) : Option Labels :=
+  match s.labels with
+  | none => none
+  | some l =>
+    if s.name = n ++ cs!"_bucket" then
+      (if dictHas l cs!"le" then some (l.filter (fun kv => kv.1 != cs!"le")) else none)
+    else some l
+
+/-- a bucket line of family `n` with bound `b` in group `g` -/
 structure IsBucket (P : Params) (n : Str) (s : OSample) (b : Nat) (g : Labels) : Prop where
   name : s.name = n ++ cs!"_bucket"
-  lbls : ∃ l le, s.labels = some l ∧ dictGet l cs!"le" = some le ∧ P.pyFloat le = some b ∧
-    g = l.filter (fun kv => kv.1 != cs!"le")
+  group : histGroupOf n s = some g
+  bound : ∃ l le, s.labels = some l ∧ dictGet l cs!"le" = some le ∧ P.pyFloat le = some b
 
-/-- same group and same timestamp, as `_check_histogram` compares them -/
+/-- same group and same timestamp, as `_check_histogram` compares a sample with its predecessor -/
 def SameHistGroup (P : Params) (g1 g2 : Labels) (t1 t2 : Option OTs) : Prop :=
   sortByKey g2 = sortByKey g1 ∧ tsEq P t2 t1 = true
 
@@ -210,27 +219,26 @@ def HistCountsNotCumulative (P : Params) (n : Str) (samples : List OSample) : Pr
   ∃ pre s1 s2 post b1 b2 g1 g2 v1 v2, samples = pre ++ s1 :: s2 :: post ∧ IsBucket P n s1 b1 g1 ∧ IsBucket P n s2 b2 g2 ∧
     SameHistGroup P g1 g2 s1.ts s2.ts ∧ s1.value = some v1 ∧ s2.value = some v2 ∧ P.lt v2 v1 = true
 
-/-- a sample of family `n` that is not a bucket line but belongs to the group `g` at timestamp `t`
+/-- a sample of family `n` that is not a bucket line and belongs to the group `g` at timestamp `t`
 (`_count`, `_sum`, `_gcount`, `_gsum`, `_created`) -/
-def InHistGroup (P : Params) (n : Str) (g : Labels) (t : Option OTs) (s : OSample) : Prop :=
-  s.name ≠ n ++ cs!"_bucket" ∧ ∃ l, s.labels = some l ∧ sortByKey l = sortByKey g ∧ tsEq P s.ts t = true ∧
+def InHistGroup (n : Str) (g : Labels) (t : Option OTs) (s : OSample) : Prop :=
+  s.name ≠ n ++ cs!"_bucket" ∧ s.ts = t ∧ (∃ l, histGroupOf n s = some l ∧ sortByKey l = sortByKey g) ∧
     (s.name.drop n.length = cs!"_gsum" → ∃ v, s.value = some v)
 
-/-- the group is over: the list ends, or a sample with a non-empty suffix of another group / timestamp follows -/
+/-- the group is over: the list ends, or a sample (with a suffix) of another group or timestamp follows -/
 def GroupEnds (P : Params) (n : Str) (g : Labels) (t : Option OTs) : List OSample → Prop
   | [] => True
-  | s :: _ => s.name.drop n.length ≠ [] ∧ s.name ≠ n ++ cs!"_bucket" ∧ ∃ l, s.labels = some l ∧
-      (sortByKey l ≠ sortByKey g ∨ tsEq P s.ts t = false)
+  | s :: _ => s.name.drop n.length ≠ [] ∧ ∃ l, histGroupOf n s = some l ∧ (sortByKey l ≠ sortByKey g ∨ tsEq P s.ts t = false)
 
 /-- a group whose last bucket line is not the `+Inf` bucket -/
 def HistNoInf (P : Params) (n : Str) (samples : List OSample) : Prop :=
   ∃ pre sb tail post b g, samples = pre ++ sb :: (tail ++ post) ∧ IsBucket P n sb b g ∧ P.isPosInf b = false ∧
-    (∀ s ∈ tail, InHistGroup P n g sb.ts s) ∧ GroupEnds P n g sb.ts post
+    (∀ s ∈ tail, InHistGroup n g sb.ts s) ∧ GroupEnds P n g sb.ts post
 
-/-- a group whose `_count` / `_gcount` differs from the count of its last (`+Inf`) bucket line -/
+/-- a group whose `_count` / `_gcount` line, directly after its last bucket line, differs from that bucket's count -/
 def HistCountNeInf (P : Params) (n : Str) (samples : List OSample) : Prop :=
-  ∃ pre sb sc post b g l v c, samples = pre ++ sb :: sc :: post ∧ IsBucket P n sb b g ∧
-    (sc.name = n ++ cs!"_count" ∨ sc.name = n ++ cs!"_gcount") ∧ sc.labels = some l ∧ sortByKey l = sortByKey g ∧
-    tsEq P sc.ts sb.ts = true ∧ sb.value = some v ∧ sc.value = some c ∧ P.eq v c = false ∧ GroupEnds P n g sb.ts post
+  ∃ pre sb sc post b g v c, samples = pre ++ sb :: sc :: post ∧ IsBucket P n sb b g ∧
+    (sc.name = n ++ cs!"_count" ∨ sc.name = n ++ cs!"_gcount") ∧ InHistGroup n g sb.ts sc ∧
+    sb.value = some v ∧ sc.value = some c ∧ P.eq v c = false ∧ GroupEnds P n g sb.ts post
 
 end PromVerif.Spec.OMRules
